@@ -2,6 +2,7 @@ import Proofs.LineNumbersPad
 import Proofs.LineNumbersUnified
 import Proofs.LineNumbersSbs2
 import Proofs.LineNumbersHeader
+import Proofs.Machine.HunkCounter
 /-!
 C05 — displayed line numbers are the true old/new file line numbers.
 
@@ -18,6 +19,13 @@ The line kinds are taken as `handle_hunk_line` classifies them (first character 
 An *empty* line inside a hunk (an empty context line written without the leading space) is not
 classified as a hunk line by the code — that defect is outside these statements and is reported
 by the check's direct oracle (known finding C05-empty-context-line).
+
+Plain `diff -u` input (section "plain `diff -u` input" below): whether a line `--- x` inside a hunk is
+a hunk line at all is decided by the minus-line counter of the state machine
+(`DeltaModel/Machine.lean`, driver `drv_machine`); which match arms of `handle_hunk_line` count a
+line is regenerated from the source (`DeltaModel/Generated/HunkCounter.lean`) and proved to be what
+the machine model does; `plain_diff_numbers_true` composes the plain-diff reading of C01 with
+`unified_numbers_true`.
 -/
 namespace C05
 open LineNumbers
@@ -147,6 +155,170 @@ theorem log10_plus_1_digits (n : Nat) : log10Plus1 n = (Nat.repr n).length := by
   rw [log10Plus1_eq, digits_eq_repr, String.length_toList]
 
 example : log10Plus1 18446744073709551615 = 20 := by decide
+
+-- plain `diff -u` input ---------------------------------------------------------------------------
+
+section Plain
+open Machine Machine.Plain Machine.Counter
+
+/-- **Which hunk lines count as old-file lines** (the plain-diff minus-line counter that decides whether
+    `--- x` inside a hunk is the removed line `-- x` or the next file's header). The machine model's
+    `hunkLinePush` — for every configuration, machine state and line — moves the counter by
+    `count_line`'s step times the number of `count_line()` calls that the extractor found in the match
+    arm of `handle_hunk_line` the line is dispatched to (removed: 1, added: 0, unchanged: 1, anything
+    else: 0; `Generated/HunkCounter.lean`, helper methods inlined). An edit that makes added lines count
+    too changes the generated table and this no longer holds of the model. -/
+theorem minus_counter_arms_match_source {cfg : Cfg} {m2 m3 : M} {l : L} {k : Option (LineKind × DiffType)}
+    (hk : newLineState m2.st l = .ok k) (e : hunkLinePush cfg m2 l = .ok m3) :
+    m3.counter = m2.counter - Generated.HunkCounter.countStep * ((armCalls (k.map (·.1)) : Nat) : Int) ∧
+    modelArms = [Generated.HunkCounter.countCallsMinus, Generated.HunkCounter.countCallsPlus,
+      Generated.HunkCounter.countCallsZero, Generated.HunkCounter.countCallsOther] :=
+  ⟨hunkLinePush_counter hk e, modelArms_eq_generated⟩
+
+/-- hypotheses on a concrete state and line: an added line in a unified hunk state; the counter stays -/
+example : newLineState (.hunkZero .unified) (probeLine "+++ x") = .ok (some (.plus, .unified)) ∧
+    (match hunkLinePush {} { st := .hunkZero .unified, counter := 3 } (probeLine "+++ x") with
+     | .ok m => m.counter
+     | .error _ => 0) = 3 := ⟨by rfl, by rfl⟩
+
+/-- **The rest of the counter is the source's too**: `three_dashes_expected` with the extracted constants
+    and comparison operators, `count_from` with its fallback, the seeding (not needed → armed → set from
+    the length of the first coordinate pair of a hunk header), and the inventory of every place in
+    `src/` that touches the counter. -/
+theorem minus_counter_tables_match_source (c : Int) (n : Nat) :
+    (Generated.HunkCounter.threeDashesShape = (">", "<=", true) ∧
+      (threeDashesExpected c = true ↔
+        (c > Generated.HunkCounter.relevantIfGreaterThan → c ≤ Generated.HunkCounter.expectHeader))) ∧
+    countFrom n = (if n < 2 ^ 63 then (n : Int) else Generated.HunkCounter.relevantIfGreaterThan) ∧
+    (({} : M).counter = Generated.HunkCounter.relevantIfGreaterThan ∧
+      (∀ (m : M) (l : L), (armCounter m l).counter = m.counter ∨
+        (armCounter m l).counter = Generated.HunkCounter.expectHeader) ∧
+      Generated.HunkCounter.countFromSite = (0, 1, 2, false) ∧
+      (∀ (m : M) (hh : Headers.HunkHeader) (a ml : Nat) (p : Nat × Nat) (rest : List (Nat × Nat)),
+        hh.coords = (a, ml) :: p :: rest → m.counter > Generated.HunkCounter.relevantIfGreaterThan →
+        hunkHeaderCounter m hh = countFrom ml) ∧
+      (∀ (m : M) (hh : Headers.HunkHeader), ¬ m.counter > Generated.HunkCounter.relevantIfGreaterThan →
+        hunkHeaderCounter m hh = m.counter)) ∧
+    Generated.HunkCounter.counterSites.map (fun x => (x.1, x.2.2)) =
+      [("src/delta.rs", "field"), ("src/delta.rs", "assign prepare_to_count"), ("src/delta.rs", "init not_needed"),
+       ("src/handlers/diff_header.rs", "three_dashes_expected"), ("src/handlers/hunk.rs", "count_line"),
+       ("src/handlers/hunk_header.rs", "assign count_from"), ("src/handlers/hunk_header.rs", "must_count")] :=
+  ⟨threeDashesExpected_generated c, countFrom_generated n, counter_seeding, by rw [counter_sites]; rfl⟩
+
+/-- **Plain `diff -u` / `diff -ru` input: every line of a hunk — a removed line `-- x` (input `--- x`)
+    and an added line `++ x` (input `+++ x`) included — carries its true old/new number.**
+    Input `pre ++ hdr :: body ++ post` that is plain diff output (`PlainInput`: detected as such by its
+    first line and accepted by the reference reading of `C01.plain_diff_hunk_rows`, i.e. the hunk headers
+    announce the true number of old-file lines), where after `pre` the reading takes `hdr` for a hunk
+    header with coordinates `-a,b +c,d` and every line of `body` for a line of that hunk. Then
+    * `b` is the announced old-file length the minus-line counter was set from;
+    * the hunk-line rows of delta's output are those of `pre`, then exactly one row per line of `body`, in
+      order, each `plainRow` (kind by the first column: `--- x` is a removed line), then those of `post`;
+    * the kinds of these rows, `\ No newline…` rows aside, are `hunkKinds body` — the sequence of
+      `paint` requests `handle_hunk_line` makes for the hunk;
+    * `initialize_hunk` seeds the counters with `(a, c)`, and the line-number machine run on these kinds
+      (any `line-buffer-size`) gives the `j`-th line of the body — if it is a `-`, `+` or blank line — a
+      gutter cell showing `a + #{old-file lines before it in the hunk}` on the old side iff it is an
+      old-file line and `c + #{new-file lines before it}` on the new side iff it is a new-file line, and
+      leaves the counters at `(a + #old, c + #new)`. -/
+theorem plain_diff_numbers_true {cfg : Cfg} {pre body post : List L} {hdr : L} {s s2 : PS} {ml : Nat} {m : M}
+    {a b c d : Nat}
+    (hin : PlainInput (pre ++ hdr :: (body ++ post)))
+    (hpre : plainAfter .top pre = some s)
+    (hh : plainNext s hdr = some (.hunk ml, false))
+    (hco : (Headers.parseHunkHeader hdr.text).map (·.coords) = some [(a, b), (c, d)])
+    (hb : readBody (.hunk ml) body = some s2)
+    (e : run cfg (pre ++ hdr :: (body ++ post)) = .ok m)
+    (ha : a + max b (oldCount body) ≤ usizeMax) (hc : c + max d (newCount body) ≤ usizeMax) :
+    b = ml ∧
+    m.out.filter (fun r => isBody r.kind) =
+      plainRows cfg .top 0 pre ++ bodyRows cfg (pre.length + 1) body ++
+        plainRows cfg s2 (pre.length + 1 + body.length) post ∧
+    (bodyRows cfg (pre.length + 1) body).filterMap (fun r => rowNumKind r.kind) = hunkKinds body ∧
+    (∃ w, initializeHunk [(a, b), (c, d)] = .ok (⟨a, c⟩, w)) ∧
+    ∃ cells, runUnified cfg.bufSize ⟨a, c⟩ (hunkKinds body) =
+        .ok (⟨a + oldCount body, c + newCount body⟩, cells) ∧
+      cells.length = (hunkKinds body).length ∧
+      ∀ j (hj : j < body.length) (k : Kind), numKind body[j] = some k →
+        (bodyRows cfg (pre.length + 1) body)[j]? = some (plainRow cfg body[j] (pre.length + 1 + j)) ∧
+        ∃ cell, cells[(hunkKinds (body.take j)).length]? = some (some cell) ∧
+          cell.left = (if k.isOld then some (a + oldCount (body.take j)) else none) ∧
+          cell.right = (if k.isNew then some (c + newCount (body.take j)) else none) := by
+  have hbo : countOld (hunkKinds body) = oldCount body := countOld_hunkKinds body
+  have hbn : countNew (hunkKinds body) = newCount body := countNew_hunkKinds body
+  refine ⟨?_, ?_, ?_, ?_, ?_⟩
+  · -- the announced length
+    have han := plainNext_hunk_false hh
+    unfold announcedOld at han
+    split at han
+    · cases hp : Headers.parseHunkHeader hdr.text with
+      | none => simp [hp] at hco
+      | some h0 =>
+        simp only [hp, Option.map_some, Option.some.injEq] at hco
+        simp only [hp, hco] at han
+        split at han
+        · exact Option.some.inj han
+        · cases han
+    · cases han
+  · -- the rows
+    rw [run_plain_rows hin e, plainRows_append pre .top s 0 (hdr :: (body ++ post)) hpre,
+      plainRows_cons _ (body ++ post) hh,
+      plainRows_append body (.hunk ml) s2 _ post (readBody_after body _ _ hb),
+      readBody_rows cfg body _ s2 _ hb]
+    simp [Nat.add_assoc]
+  · exact bodyRows_kinds cfg body _ (readBody_lines body _ _ hb)
+  · exact ⟨_, initializeHunk_two a b c d (by omega) (by omega)⟩
+  · obtain ⟨rows, hrun, hlen, hrows⟩ := unified_numbers_true cfg.bufSize a c (hunkKinds body)
+      (by rw [hbo]; omega) (by rw [hbn]; omega)
+    refine ⟨rows, by rw [hrun, hbo, hbn], hlen, ?_⟩
+    intro j hj k hk
+    refine ⟨?_, ?_⟩
+    · rw [bodyRows_getElem cfg body (pre.length + 1) j hj]
+    · obtain ⟨hlt, hget, htake⟩ := hunkKinds_take body j hj k hk
+      obtain ⟨cell, hcell, hl, hr⟩ := hrows _ hlt
+      refine ⟨cell, hcell, ?_, ?_⟩
+      · rw [hl, hget, htake, countOld_hunkKinds]
+      · rw [hr, hget, htake, countNew_hunkKinds]
+
+/-- two concatenated plain diffs; in the first hunk the removed line `-- legacy columns` (input
+    `--- legacy columns`) comes after four added lines, when two old-file lines have been seen and
+    four are still to come -/
+def plainNumSample : List L :=
+  ["--- a/db/schema.sql", "+++ b/db/schema.sql", "@@ -10,6 +10,9 @@", " create table person (", "+  id integer,",
+   "+  email text,", "+  created timestamp,", "+  updated timestamp,", "   name text,", "--- legacy columns",
+   "   age integer,", "   unused integer", " );", "--- a/README", "+++ b/README", "@@ -1 +1 @@", "-old title",
+   "+new title"].map probeLine
+
+/-- the hypotheses of `plain_diff_numbers_true` with `pre` = lines 0–1, `hdr` = line 2, `body` = lines 3–12 -/
+example : plainAccepts .top plainNumSample = true := by decide
+example : detectSource (probeLine "--- a/db/schema.sql").text = .diffUnified := by decide
+example : plainAfter .top (plainNumSample.take 2) = some .top := by decide
+example : plainNext .top (probeLine "@@ -10,6 +10,9 @@") = some (.hunk 6, false) := by decide
+example : (Headers.parseHunkHeader (probeLine "@@ -10,6 +10,9 @@").text).map (·.coords) = some [(10, 6), (10, 9)] := by
+  decide
+example : readBody (.hunk 6) ((plainNumSample.drop 3).take 10) = some (.hunk 0) := by decide
+example : (10 : Nat) + max 6 (oldCount ((plainNumSample.drop 3).take 10)) ≤ usizeMax ∧
+    (10 : Nat) + max 9 (newCount ((plainNumSample.drop 3).take 10)) ≤ usizeMax := by decide
+/-- … and its conclusion: the machine shows the ten body lines as hunk lines (`--- legacy columns`,
+    input line 9, as a removed line; the `--- a/README` / `+++ b/README` lines 13–14 not at all) … -/
+example : (match run {} plainNumSample with
+    | .ok m => (m.out.filter (fun r => isBody r.kind)).map (fun r => (r.src, rowNumKind r.kind))
+    | .error _ => []) =
+    [(3, some .ctx), (4, some .plus), (5, some .plus), (6, some .plus), (7, some .plus), (8, some .ctx),
+     (9, some .minus), (10, some .ctx), (11, some .ctx), (12, some .ctx), (16, some .minus), (17, some .plus)] := by
+  decide
+/-- … and the line-number machine numbers them 10/10, –/11 … –/14, 11/15, **12/–** (`-- legacy columns`),
+    13/16, 14/17, 15/18 -/
+example : numKind (probeLine "--- legacy columns") = some .minus ∧
+    oldCount (((plainNumSample.drop 3).take 10).take 6) = 2 ∧
+    (hunkKinds (((plainNumSample.drop 3).take 10).take 6)).length = 6 := by decide
+example : (runUnified 32 ⟨10, 10⟩ (hunkKinds ((plainNumSample.drop 3).take 10))).toOption.map
+      (fun r => r.2.map (fun cell => cell.map fun x => (x.left, x.right)))
+    = some [some (some 10, some 10), some (none, some 11), some (none, some 12), some (none, some 13),
+        some (none, some 14), some (some 11, some 15), some (some 12, none), some (some 13, some 16),
+        some (some 14, some 17), some (some 15, some 18)] := by rfl
+
+end Plain
 
 /-- Beyond `usize::MAX` the counter additions either panic (`+=`, dev profile — C03's subject) or
     saturate (`saturating_add`, optional repair 29ddcd9); the model follows whichever form the
